@@ -34,7 +34,7 @@ def plan(tier, seed):
 def conclude(agg):
     c = agg['counters']
     r = [f'pair kind {k} was never compared' for k in PAIRS if c.get('pairs/' + k, 0) == 0]
-    r += [f'monitor counter {k} is zero' for k in ('effective_pairs', 'reached/dataset-mode0', 'reached/dataset-mode1', 'reused_gpu_cpu_pairs') if c.get(k, 0) == 0]
+    r += [f'monitor counter {k} is zero' for k in ('effective_pairs', 'reached/dataset-mode0', 'reached/dataset-mode1', 'reused_gpu_cpu_pairs', 'restricted_then_full') if c.get(k, 0) == 0]
     return r
 
 
@@ -170,6 +170,16 @@ def check_case(case, ctx):
         kk = run(prop_kw={'sims': k})
         if not eq('sims_k', np.asarray(kk.s)[3:, :, :k], rs[3:, :, :k], f'lanes < {k} of c_prop(sims={k})'):
             return
+        # (f2) a restricted propagation followed by a full one on the same simulator (CPU and GPU path): the full one covers all lanes again
+        for cls_ in ('cpu', 'cuda'):
+            k2 = rr.randint(1, max(1, min(n - 1, 4)))
+            sim2 = run(cls=cls_, prop_kw={'sims': k2})
+            W.apply_stim(sim2, b, r.stim)
+            sim2.c_prop()
+            sim2.c_to_s()
+            ctx.count('restricted_then_full')
+            if not eq('sims_k', np.asarray(sim2.s)[3:], rs[3:], f'full c_prop() after c_prop(sims={k2}) on the same {cls_} simulator'):
+                return
         # (g) delay datasets
         if nd > 1:
             ds = rr.randrange(nd)
